@@ -60,6 +60,7 @@ inductive Len
 deriving Repr, DecidableEq, Inhabited
 
 inductive PProp | sizeW | sizeH | mTop | mRight | mBottom | mLeft | width | height | ctrIncr | ctrReset | ctrSet
+  | pTop | pRight | pBottom | pLeft | bTop | bRight | bBottom | bLeft     -- padding-*, border-*-width (px)
 deriving Repr, DecidableEq, Inhabited
 
 structure Decl where
@@ -120,37 +121,53 @@ structure Oriented where
   mB : Rat
 deriving Repr, DecidableEq, Inhabited
 
-/-- `pageWidthOrHeight` (padding and borders of the page box are zero here) -/
-def pageWidthOrHeight (cb : Rat) (mA inner mB : Option Rat) : Oriented :=
+/-- `pageWidthOrHeight`; `pb` = paddingPlusBorder of the page box on this axis (both sides) -/
+def pageWidthOrHeight (cb pb : Rat) (mA inner mB : Option Rat) : Oriented :=
+  let remaining := cb - pb
   match inner with
   | none =>
     let a := mA.getD 0
     let b := mB.getD 0
-    { mA := a, inner := cb - a - b, mB := b }
+    { mA := a, inner := remaining - a - b, mB := b }
   | some i =>
     match mA, mB with
-    | none, none => { mA := (cb - i) / 2, inner := i, mB := (cb - i) / 2 }
-    | none, some b => { mA := cb - i - b, inner := i, mB := b }
-    | some a, none => { mA := a, inner := i, mB := cb - i - a }
+    | none, none => { mA := (remaining - i) / 2, inner := i, mB := (remaining - i) / 2 }
+    | none, some b => { mA := remaining - i - b, inner := i, mB := b }
+    | some a, none => { mA := a, inner := i, mB := remaining - i - a }
     | some a, some b => { mA := a, inner := i, mB := b }          -- over-constrained: nothing is changed
+
+/-- padding and border widths of the page box: (before, after) on an axis -/
+structure Deco where
+  bA : Rat := 0     -- border-top / border-left width
+  pA : Rat := 0     -- padding-top / padding-left
+  pB : Rat := 0     -- padding-bottom / padding-right
+  bB : Rat := 0     -- border-bottom / border-right width
+deriving Repr, DecidableEq, Inhabited
+
+def Deco.sum (d : Deco) : Rat := d.bA + d.pA + d.pB + d.bB
 
 structure PageGeom where
   sheetW : Rat
   sheetH : Rat
   h : Oriented          -- margin-left, width, margin-right
   v : Oriented          -- margin-top, height, margin-bottom
+  dh : Deco := {}       -- left / right border and padding
+  dv : Deco := {}       -- top / bottom border and padding
 deriving Repr, DecidableEq, Inhabited
 
 def defaultSize : Rat × Rat := (793 + 7/10, 1122 + 13/25)   -- placeholder, never used: the harness always sets `size`
 
 def pageGeom (rules : List Rule) (p : PageInfo) : PageGeom :=
   let get (pr : PProp) : Len := (cascaded rules p pr).getD .auto
+  let px (pr : PProp) : Rat := (resolveLen 0 (get pr)).getD 0
   let w := (resolveLen 0 (get .sizeW)).getD defaultSize.1
   let hh := (resolveLen 0 (get .sizeH)).getD defaultSize.2
+  let dh : Deco := { bA := px .bLeft, pA := px .pLeft, pB := px .pRight, bB := px .bRight }
+  let dv : Deco := { bA := px .bTop, pA := px .pTop, pB := px .pBottom, bB := px .bBottom }
   -- the UA sheet gives @page a margin of 75px; the harness always declares the four margins
-  { sheetW := w, sheetH := hh,
-    h := pageWidthOrHeight w (resolveLen w (get .mLeft)) (resolveLen w (get .width)) (resolveLen w (get .mRight)),
-    v := pageWidthOrHeight hh (resolveLen hh (get .mTop)) (resolveLen hh (get .height)) (resolveLen hh (get .mBottom)) }
+  { sheetW := w, sheetH := hh, dh, dv,
+    h := pageWidthOrHeight w dh.sum (resolveLen w (get .mLeft)) (resolveLen w (get .width)) (resolveLen w (get .mRight)),
+    v := pageWidthOrHeight hh dv.sum (resolveLen hh (get .mTop)) (resolveLen hh (get .height)) (resolveLen hh (get .mBottom)) }
 
 /-! ### the `page` counter -/
 
@@ -194,7 +211,8 @@ def marginValues (boxes : List CounterOps) (v : Int) : List Int := boxes.map (bo
 /-- content-box top and height in the integer unit of the pagination model (1/4 px) -/
 def dimsOf (rules : List Rule) (p : PageInfo) : Int × Int :=
   let g := pageGeom rules p
-  ((g.v.mA * 4).floor, (g.v.inner * 4).floor)
+  -- page.ContentBoxY() = margin-top + border-top + padding-top
+  (((g.v.mA + g.dv.bA + g.dv.pA) * 4).floor, (g.v.inner * 4).floor)
 
 def paginateWith (rules : List Rule) (lineH : Int) (ltr : Bool) (root : Box) (fuel : Nat) : PagesRes :=
   paginate (geoPages lineH (dimsOf rules)) ltr root fuel
